@@ -81,6 +81,8 @@ def coq_list(items, scope: str = "") -> str:
 
 
 def coq_Z(n: int) -> str:
+    if abs(n) >= 1 << 60:  # hex literals parse in linear time
+        return f"(-{hex(-n)})%Z" if n < 0 else f"{hex(n)}%Z"
     return f"({n})%Z" if n < 0 else f"{n}%Z"
 
 
